@@ -257,11 +257,25 @@ def check_recoverable(pre, crashed_root, post, label):
     elif x.exit not in (0, 10, 11):
         probs.append(f"{label}: the next create ends with exit {x.exit}")
     else:
-        for a, st in committed_state(crashed_root).items():
+        after = committed_state(crashed_root)
+        for a, st in after.items():
             if isinstance(st["chain"], list):
                 seqs = [int(e["seq"]) for e in st["chain"]]
                 if seqs != list(range(1, len(seqs) + 1)):
                     probs.append(f"{label}: after the next create the chain of {a} lists sequence numbers {seqs}")
+        try:
+            x = rt.run("info", [crashed_root], "2026-03-01 12:10:03")
+            if x.exc is None and x.exit == 0:
+                import re as _re
+                shown = [int(n) for n in _re.findall(r"^\s+Generation (\d+) \(", x.out.split("Child History at")[0], _re.M)]
+                rootkey = [a for a in after if os.path.dirname(a) in ("", ".")]
+                ch = after[rootkey[0]]["chain"] if rootkey else None
+                if isinstance(ch, list) and shown != [int(e["seq"]) for e in ch]:
+                    probs.append(f"{label}: after the next create info shows generations {shown}, the chain lists {[int(e['seq']) for e in ch]} (the leftover of the interrupted run came back as a generation)")
+            elif x.exc is not None or x.exit not in (0, 30):
+                probs.append(f"{label}: info after the next create ends with {x.exc or x.exit}")
+        except Exception:
+            pass
     # the interrupted generation is all or nothing
     for a, st in cur.items():
         for name, b in st["manifests"].items():
